@@ -60,6 +60,38 @@ pub fn gen_history(r: &mut Rng, max_objects: usize, max_revs: usize) -> History 
     h
 }
 
+/// a long history: 34..70 small updates that keep rewriting a few "hot" objects, so that most objects are defined by
+/// the oldest sections only (documents that are signed or annotated again and again look like this)
+pub fn gen_long_history(r: &mut Rng) -> History {
+    let nb = 6 + r.usize_below(10);
+    let d = legal_doc(r, nb);
+    let mut h = History::from_doc(&d);
+    let ids: Vec<(u32, u16)> = d.objects.keys().cloned().collect();
+    let hot: Vec<(u32, u16)> = (0..1 + r.usize_below(3)).map(|_| *r.pick(&ids)).collect();
+    let cfg = gen::ObjCfg { max_depth: 1, refs: true, ref_pool: ids.clone(), max_str: 12, max_children: 3 };
+    let mut mx = d.max_num();
+    let nrev = 34 + r.usize_below(37);
+    for _ in 0..nrev {
+        let mut rev = Revision { objects: BTreeMap::new(), trailer: d.trailer.clone() };
+        let id = *r.pick(&hot);
+        let mut o = gen::top_object(r, &cfg);
+        sanitize_for_refwriter(&mut o);
+        // (a number keeps its kind: a stream is replaced by a stream, so that it stays out of object streams)
+        if matches!(d.objects[&id], RObj::Stream(..)) {
+            o = RObj::Stream(vec![], gen::stream_body(r, 20));
+        }
+        rev.objects.insert(id, o);
+        if r.chance(1, 6) {
+            mx += 1;
+            let mut o = gen::top_object(r, &cfg);
+            sanitize_for_refwriter(&mut o);
+            rev.objects.insert((mx, 0), o);
+        }
+        h.revisions.push(rev);
+    }
+    h
+}
+
 fn history_to_json(h: &History) -> Value {
     json!({"version":h.version,"revisions":h.revisions.iter().map(|r| {
         let mut d = RDoc::new(); d.objects = r.objects.clone(); d.trailer = r.trailer.clone(); rdoc_to_json(&d)
@@ -538,12 +570,12 @@ pub fn run(cfg: &RunCfg) -> (PropMeta, ShardOut, Map<String, Value>) {
                 }
             } else if i % 2 == 0 {
                 let nb = 4 + r.usize_below(30);
-                let h = gen_history(&mut r, nb, 4);
+                let h = if i % 80 == 38 { gen_long_history(&mut r) } else { gen_history(&mut r, nb, 4) };
                 let style = if r.bool() { XrefStyle::Table } else { XrefStyle::Stream };
                 let objstm = r.chance(3, 4);
                 let wseed = r.next_u64();
                 out.evaluations += 1;
-                out.count(&format!("histories_with_{}_updates", h.revisions.len() - 1));
+                out.count(&format!("histories_with_{}_updates", if h.revisions.len() > 30 { "more_than_30".to_string() } else { (h.revisions.len() - 1).to_string() }));
                 out.count(if style == XrefStyle::Table { "histories_xref_table" } else { "histories_xref_stream" });
                 let fs = check_history(&h, wseed, style, objstm, &mut out);
                 out.digests.insert(crate::prng::fnv_bytes(format!("{:?}{:?}", h.revisions, wseed).as_bytes()));
@@ -564,7 +596,7 @@ pub fn run(cfg: &RunCfg) -> (PropMeta, ShardOut, Map<String, Value>) {
     });
     let meta = PropMeta {
         level: "exploration",
-        rule: "(a) random histories base + 1..4 update revisions (each replacing a random subset and adding objects, trailer changes) written by the reference writer (xref tables or xref streams, updated objects plain or inside object streams): Document::load_mem of every prefix must equal the latest-wins model; (b) random edit scripts (set_object, opt_clone_object_to_new_document + mutation, add_object) through IncrementalDocument on lopdf-written and reference-written bases, 1..3 steps, after each step: previous bytes are a prefix, get_prev_documents() unchanged, the strict reader finds only the touched objects and exactly one new section with Prev = previous startxref, the result loads to the model; (c) one case in ten is a file in the layout of linearized documents: the newest section stands in front of the (older) main section its Prev names, 0..2 ordinary updates appended - it must load to the latest-wins merge along the Prev chain and survive an incremental update. distinct = distinct histories / final files.".into(),
+        rule: "(a) random histories base + 1..4 update revisions (each replacing a random subset and adding objects, trailer changes; one history in forty has 34..70 small updates that leave most objects to the oldest sections) written by the reference writer (xref tables or xref streams, updated objects plain or inside object streams): Document::load_mem of every prefix must equal the latest-wins model; (b) random edit scripts (set_object, opt_clone_object_to_new_document + mutation, add_object) through IncrementalDocument on lopdf-written and reference-written bases, 1..3 steps, after each step: previous bytes are a prefix, get_prev_documents() unchanged, the strict reader finds only the touched objects and exactly one new section with Prev = previous startxref, the result loads to the model; (c) one case in ten is a file in the layout of linearized documents: the newest section stands in front of the (older) main section its Prev names, 0..2 ordinary updates appended - it must load to the latest-wins merge along the Prev chain and survive an incremental update. distinct = distinct histories / final files.".into(),
         assumptions: vec![
             "one cross-reference style per file; hybrid files and objects freed in a later revision are outside the domain".into(),
             "raw CR/CRLF inside literal strings (C02's known finding) is switched off in the reference writer for this property".into(),
